@@ -43,6 +43,9 @@ META = {
 PREAMBLE = """From DL Require Import Lib.Bytes Model.CommentText Model.TokenGen.
 Open Scope N_scope.
 Open Scope string_scope.
+(* positions are transported as binary numbers *)
+Definition R (a b l : N) : position := Ref (N.to_nat a) (N.to_nat b) (N.to_nat l).
+Definition Ow (c : bytes) (l : N) : position := Owned c (N.to_nat l).
 Definition T := (string * string * list event)%type.
 Definition c_src (c : T) := unhex (fst (fst c)).
 Definition c_out (c : T) := unhex (snd (fst c)).
@@ -88,9 +91,9 @@ Definition diag_case (c : N * string) : string := row (fst c).
 
 def coq_pos(p):
     if p[0] == 0:
-        return "(Ref %d %d %d)" % (p[1], p[2], p[3])
+        return "(R %d %d %d)" % (p[1], p[2], p[3])
     if p[0] == 1:
-        return "(Owned (unhex %s) %d)" % (C.coq_string(p[1]), p[2])
+        return "(Ow (unhex %s) %d)" % (C.coq_string(p[1]), p[2])
     return "(AnyPos (unhex %s))" % C.coq_string(p[1])
 
 
@@ -108,7 +111,9 @@ def coq_events(trace):
             out.append("ESymbol (unhex %s) %s" % (C.coq_string(e["c"]), "true" if e["sc"] else "false"))
         else:
             out.append("ERaw (unhex %s)" % C.coq_string(e["c"]))
-    return "([" + ";\n ".join(out) + "]%nat)"
+    if not out:
+        return "(@nil event)"
+    return "[" + ";\n ".join(out) + "]"
 
 
 def coq_case(src, out, trace):
@@ -173,6 +178,16 @@ def classify(src, out):
             if nxt in (b"end", b"until", b"else", b"elseif", b"<eof>"):
                 return "dropped:last-semicolon", k
         return "dropped:;", k
+    # trivia in front of the `}` that closes a hole of an interpolated string
+    try:
+        toks, _ = L.lex(src.encode("utf-8"))
+    except L.LexError:
+        return "other", k
+    pos = len(src[:k].encode("utf-8"))
+    nxt = next((t for t in toks if t.end > pos), None)
+    if nxt is not None and nxt.kind == "istring" and nxt.text.startswith(b"}") and nxt.start >= pos \
+            and len(out) < len(src):
+        return "dropped:trivia-before-interpolation-closing-brace", k
     return "other", k
 
 
@@ -282,7 +297,7 @@ def run(ctx):
         items = sorted(failing[key], key=lambda it: len(it[0]))
         s, out, d, at = items[0]
         known = key in ctx.known
-        small = S.shrink(s, still(key), max_tests=60 if known else 400)
+        small = S.shrink(s, still(key), max_tests=150 if known else 400)
         so = run_harness([{"id": 0, "config": NO_RULES, "src": small}])[0].get("out")
         ctx.violation("output differs from the source (%s): %r -> %r" % (key, small[:80], (so or "")[:80]),
                       {"class": key, "source": small, "output": so, "original_source": s, "original_output": out,
